@@ -419,7 +419,8 @@ def group_parameters(params_list: List[ParamList]) -> ParamList:
     non_get_pop_count = 0
     params_dict = defaultdict(list)
     for params in params_list:
-        if not (params[0].origin or "").startswith(param_kwargs_pop_or_get):  # type: ignore[union-attr]
+        origin = params[0].origin
+        if not (isinstance(origin, str) and origin.startswith(param_kwargs_pop_or_get)):
             non_get_pop_count += 1
         for param in params:
             if param.kind != kinds.POSITIONAL_ONLY:
